@@ -1,0 +1,12 @@
+//go:build verif
+
+package web
+
+// Verification hooks (add-only, build tag `verif`).
+
+// VerifURLSpans returns the matches of urlRE in s exactly as regexp.ReplaceAllStringFunc visits them
+// (byte offsets [start,end), ascending, non-overlapping).
+func VerifURLSpans(s string) [][]int { return urlRE.FindAllStringIndex(s, -1) }
+
+// VerifURLVisit runs urlRE.ReplaceAllStringFunc over s with f (the traversal TextToHTML uses).
+func VerifURLVisit(s string, f func(string) string) string { return urlRE.ReplaceAllStringFunc(s, f) }
